@@ -452,6 +452,55 @@ def run_history(case):
             if lits and max(lits) > top:
                 raised_between = True
             top = max([top] + lits)
+        elif kind == 'add_clauses_from':
+            # a batch whose iterable may be lazy and may allot variables between two clauses;
+            # model: the same as inserting the items one by one
+            state = {'top': top, 'raised': raised_between, 'err': None, 'groups': 0}
+
+            def items():
+                for it in a[0]:
+                    if it and it[0] == 'new_variable':
+                        v = F.new_variable('B{}'.format(step))
+                        got = [v]
+                    elif it and it[0] == 'new_block':
+                        got = list(F.new_block(*it[1]))
+                    else:
+                        lits = [l for l in it if l != 0]
+                        if lits and max(map(abs, lits)) > state['top']:
+                            state['raised'] = True
+                        state['top'] = max([state['top']] + [abs(l) for l in lits])
+                        yield lits
+                        continue
+                    state['groups'] += 1
+                    if got and (got != list(range(got[0], got[0] + len(got))) or got[0] <= state['top']):
+                        state['err'] = "{}: a group allotted while the batch was being consumed got identifiers {}.. but variable {} was already mentioned by an earlier clause of the batch".format(what, got[:4], state['top'])
+                    state['top'] = max([state['top']] + got)
+            lazy = a[1] == 'generator' or any(it and isinstance(it[0], str) for it in a[0])
+            batch = items() if lazy else [[l for l in it if l != 0] for it in a[0]]
+            if not lazy:
+                for lits in batch:
+                    if lits and max(map(abs, lits)) > state['top']:
+                        state['raised'] = True
+                    state['top'] = max([state['top']] + [abs(l) for l in lits])
+            F.add_clauses_from(batch) if a[2] else F.add_clauses_from(batch, check=True)
+            if state['err']:
+                raise Violation(state['err'])
+            top, raised_between = state['top'], state['raised']
+            if state['groups']:
+                ngroups += state['groups']
+                labels.add('allot-inside-batch')
+                interesting = True
+            labels.add('batch')
+        elif kind == 'add_constraint' and case['cls'] != 'OPB':
+            continue
+        elif kind == 'add_constraint':
+            pairs = [(tuple if a[4] == 'tuple' else list)(p) for p in a[0]]
+            F.add_constraint(pairs + [a[1], a[2]]) if a[3] else F.add_constraints_from(iter([pairs + [a[1], a[2]]]))
+            ls = [abs(l) for (_, l) in a[0]]
+            if ls and max(ls) > top:
+                raised_between = True
+            top = max([top] + ls)
+            labels.add('constraint-pairs:' + a[4])
         elif kind == 'update_variable_number':
             F.update_variable_number(a[0])
             if a[0] > top:
@@ -493,7 +542,7 @@ def strat_history(draw):
     S = lambda lo, hi: draw(I(lo, hi))      # noqa
     for _ in range(nsteps):
         kind = draw(st.sampled_from(GROUP_OPS + ['add_clause', 'add_clause', 'add_clause_nocheck', 'builder_nocheck',
-                                                 'builder_check', 'update_variable_number']))
+                                                 'builder_check', 'update_variable_number', 'add_clauses_from', 'add_constraint']))
         lits = draw(st.lists(st.integers(-40, 40), max_size=5))
         if kind == 'new_variable':
             ops.append([kind])
@@ -515,6 +564,14 @@ def strat_history(draw):
             ops.append([kind, n, draw(st.lists(st.sampled_from(P), unique_by=tuple)) if P else []])
         elif kind in ('add_clause', 'add_clause_nocheck'):
             ops.append([kind, lits])
+        elif kind == 'add_clauses_from':
+            item = st.one_of(st.lists(st.integers(-40, 40), max_size=4), st.lists(st.integers(-40, 40), max_size=4),
+                             st.just(['new_variable']), st.lists(I(0, 3), min_size=1, max_size=2).map(lambda d: ['new_block', d]))
+            ops.append([kind, draw(st.lists(item, max_size=6)), draw(st.sampled_from(['list', 'generator'])), draw(B_)])
+        elif kind == 'add_constraint':
+            pairs = draw(st.lists(st.tuples(st.integers(-3, 3).filter(bool), st.integers(-40, 40).filter(bool)), max_size=4))
+            ops.append([kind, [list(p) for p in pairs], draw(st.sampled_from(['>=', '<=', '>', '<', '=='])), S(-3, 6), draw(B_),
+                        draw(st.sampled_from(['tuple', 'list']))])
         elif kind == 'builder_nocheck':
             ops.append([kind, draw(st.sampled_from(['add_parity', 'add_linear', 'cardinality_geq', 'cardinality_leq', 'cardinality_eq', 'cardinality_neq'])),
                         lits, S(0, 5), draw(st.sampled_from(['<=', '>=', '==', '!=', '<', '>']))])
@@ -533,6 +590,6 @@ SUBCHECKS = [
              rule="every sub-command of the catalogue through cnfgen (with -T chains) and pbgen built in-process; same structural oracle on the returned object",
              required_labels=['cnfgen', 'pbgen']),
     SubCheck('history', run_history, strategy=strat_history, quick=1500, thorough=60000,
-             rule="op logs (1..30 steps) on CNF and OPB: all eleven group constructors with generated shapes (empty groups included), add_clause(check=True) with arbitrary literals up to 40, add_clause(check=False) and check=False builders restricted to declared variables, checked builders, update_variable_number; model: the largest identifier mentioned/allotted so far; after every step: new group contiguous and strictly above the model value, declared count never decreases and covers the model value; at the end the structural oracle + empty H1 record; non-trivial: >=2 group creations separated by an insertion that raised the count",
-             required_labels=GROUP_OPS + ['CNF', 'OPB']),
+             rule="op logs (1..30 steps) on CNF and OPB: all eleven group constructors with generated shapes (empty groups included), add_clause(check=True) with arbitrary literals up to 40, add_clause(check=False) and check=False builders restricted to declared variables, checked builders, update_variable_number, add_clauses_from on lists and on lazy iterables that allot variables/blocks between two clauses, OPB add_constraint/add_constraints_from with (coefficient, literal) pairs given as tuples or as lists and all five operators; model: the largest identifier mentioned/allotted so far; after every step: new group contiguous and strictly above the model value, declared count never decreases and covers the model value; at the end the structural oracle + empty H1 record; non-trivial: >=2 group creations separated by an insertion that raised the count",
+             required_labels=GROUP_OPS + ['CNF', 'OPB', 'allot-inside-batch', 'constraint-pairs:list', 'constraint-pairs:tuple']),
 ]
